@@ -189,7 +189,10 @@ MANIFEST = dict(
     text="For every character, irc.lowQuote returns the character itself or, for NUL, LF, CR and M-QUOTE, its two-character "
          "escape, and never an output containing NUL, LF or CR; irc.ctcpQuote likewise for X-DELIM and the backslash.  "
          "str.replace with a one-character pattern is characterwise, so no line IRCClient._reallySendLine sends contains a raw "
-         "CR, LF or NUL.  Splitting within the limit (two genuine defects are recorded findings), preservation of the "
+         "CR, LF or NUL.  With lineRate set, IRCClient.sendLine / _sendLine are proved to keep the queue discipline: a line is "
+         "sent at once exactly when no drain is pending, otherwise queued at the tail; each drain step sends the oldest "
+         "line and schedules the next step, and a step that finds the queue empty marks the drain as stopped, so that a "
+         "waiting line always has a drain step pending.  Splitting within the limit (two genuine defects are recorded findings), preservation of the "
          "message's characters and the dequoters are exercised in the bounded tier only: " + _SCOPE + ".",
     note="Trusted: pyvc, SMT solvers, characterwise replace.  Everything else: bounded, never counted as proved.",
     technique="contract-based deductive verification (complete symbolic case analysis per character, SMT sequences) + bounded exhaustive texts and limits",
